@@ -6,6 +6,7 @@ from typing import Dict, List, Optional, Set, Tuple
 
 from .. import otspec
 from ..cfg import cfg_of
+from ..dataflow import expr_closure
 from ..fold import Folder, Unfoldable
 from ..guards import fact_calls, guard_facts, guarded_names, same_defs
 from ..model import (AnalysisError, Model, calls_in, callee_tail, const_value, find_calls, kwarg, names_in, norm, short,
@@ -108,6 +109,20 @@ def r16a(model: Model, rr: RuleResult):
             raise AnalysisError(f"no otData record for {cname}")
         at = cfg.node_for(ret)
         facts = guard_facts(cfg, at)
+        if cname in ("PaintRotate", "PaintRotateAroundCenter"):
+            # sx == sy and b == -c hold for every similarity (rotation x uniform scale); only a test of the magnitude (or a comparison with the rebuilt rotation)
+            # singles out the pure rotations, and an angle alone cannot carry a scale
+            seen_exprs = []
+            for e_, _pol in facts:
+                seen_exprs += [norm(x) for x in expr_closure(cfg, at, e_)[1]]
+            magnitude = [t_ for t_ in seen_exprs if any(k_ in t_ for k_ in ("hypot", "** 2", "**2", "sx * sx", "sx * sy", "determinant", ".rotate(", "getscale", "decompose_scale", "norm(", "sqrt"))]
+            if magnitude:
+                rr.unknown(f"{cname}: emitted under a test of the magnitude ({short(ast.parse(magnitude[0], mode='eval').body, 50)}); the rule table has no reading for rotations")
+            else:
+                rr.bad(fi, call, f"{cname} is returned under tests that never look at the magnitude of the matrix ({[norm(e_)[:40] for e_, _p in facts][-3:]}): equal diagonal and opposite "
+                       f"off-diagonal entries describe every rotation COMBINED WITH a uniform scale, and the angle alone drops the scale: a shape reused rotated and scaled is painted at the donor's size",
+                       construct=f"transformed: {cname} emitted without a unit-scale test")
+            continue
         eqs = _eq_facts(facts, comp)
         if call.args:
             raise AnalysisError(f"transformed: {cname}(...) uses positional arguments (idiom not enumerated)")
